@@ -148,6 +148,14 @@ class Check:
             if run.coverage.get(a, [0, 0])[1] == 0:
                 raise MachineryError("vacuous TLC run: action %s never taken" % a)
 
+    def mark(self, label):
+        """phase timing (stderr, VERIF_VERBOSE only; also recorded in the evidence)"""
+        now = time.time()
+        self.notes.setdefault("phase_s", {})[label] = round(now - getattr(self, "_tm", self.t0), 1)
+        self._tm = now
+        if os.environ.get("VERIF_VERBOSE"):
+            print("[phase %s] %.1fs" % (label, self.notes["phase_s"][label]), file=sys.stderr)
+
     # ------------------------------------------------------------------ bookkeeping
     def case(self, key, nontrivial=True, sample=None):
         """Count one evaluated case; `key` identifies it for the distinct count."""
